@@ -236,6 +236,17 @@ impl<'a> Walk<'a> {
         });
     }
 
+    /// Returns true if no path in the given directory can be selected, so it needn't be read.
+    /// If links are followed, a directory that doesn't match the include patterns
+    /// may still contain links to files that do.
+    fn can_skip_dir(&self, path: &Path) -> bool {
+        if self.follow_links {
+            self.path_selector.excludes_dir(path)
+        } else {
+            !self.path_selector.matches_dir(path)
+        }
+    }
+
     /// Visits path of any type (can be a symlink target, file or dir)
     fn visit_path<'s, 'w, F>(
         &'s self,
@@ -249,7 +260,7 @@ impl<'a> Walk<'a> {
         F: Fn(Path) + Sync + Send,
         's: 'w,
     {
-        if self.path_selector.matches_dir(&path) {
+        if !self.can_skip_dir(&path) {
             Entry::from_path(path.clone())
                 .map_err(|e| self.log_warn(format!("Failed to stat {}: {}", path.display(), e)))
                 .into_iter()
@@ -377,7 +388,7 @@ impl<'a> Walk<'a> {
         if level >= self.depth {
             return;
         }
-        if !self.path_selector.matches_dir(&path) {
+        if self.can_skip_dir(&path) {
             return;
         }
         if self.one_fs && !self.same_fs(&path, dev) {
